@@ -99,4 +99,5 @@ class AstToAthenaSqlVisitor(AstToSqlVisitor):
     def sqlfunc_hassubset(self, *args: ast._Node) -> str:
         ":meta private:"
         args_sql = [self.visit(arg) for arg in args]
-        return f"CARDINALITY(ARRAY_INTERSECT({args_sql[0]}, {args_sql[1]})) = CARDINALITY({args_sql[1]})"
+        # `b` is a subset of `a` if nothing of `b` is left after removing `a`:
+        return f"CARDINALITY(ARRAY_EXCEPT({args_sql[1]}, {args_sql[0]})) = 0"
